@@ -6,7 +6,7 @@ C14 — certmagic.FileStorage under the storage interface of Model.lean.
     MkdirAll(dir)                                   (the directory exists in every case here)
     f := os.CreateTemp(dir, "")                     a fresh random name IN THE KEY'S DIRECTORY
     f.Chmod(0600)                                   on error: return it (the temp file stays)
-    f.Write(value)                                  on error: Cancel = close + remove temp
+    f.Write(value)                                  on error: Cancel = close, remove temp
     f.Sync(); f.Close(); os.Rename(temp, filename)  on error of any: remove temp, return it
 
 `(*FileStorage).Load` is `os.ReadFile(filename)`.
@@ -94,8 +94,8 @@ def fileStoreOps (n : Nat) (k : Key) (b : Blob) : List DOp :=
 def DOp.cleanup : DOp → List DOp
   | .creatTemp _ => []          -- nothing was created (as far as the code knows)
   | .chmod _ => []              -- atomicfile.newFile returns the error; the temp file stays
-  | .write n _ => [.remove n]   -- Cancel()
-  | .sync n => [.remove n]
+  | .write n _ => [.close n, .remove n]   -- Cancel(): close, then remove
+  | .sync n => [.remove n]      -- (the descriptor is not closed on this path)
   | .close n => [.remove n]
   | .rename n _ => [.remove n]
   | _ => []
